@@ -65,6 +65,12 @@ def mk_chain(n, coin, rng, ntx_fn=lambda h: 1, real_genesis=True, segwit=False, 
             b = {'hdr': hdr, 'hash': btc.sha256d(hdr), 'txs': txs, 'raw': btc.ser_block(hdr, txs)}
         else:
             txs = [btc.coinbase(h, btc.p2pkh(rng.randbytes(20)), extra=rng.randbytes(3))]
+            if segwit:
+                # post-segwit coinbase: witness reserved value and one or two witness-commitment outputs (aa21a9ed...).  C09 is about
+                # merkle root and links; what such an output commits to is none of --verify's business
+                txs[0]['ins'][0]['wit'] = [b'\0' * 32]
+                for _ in range(rng.choice([1, 1, 2])):
+                    txs[0]['outs'].append({'val': 0, 'spk': b'\x6a\x24\xaa\x21\xa9\xed' + rng.randbytes(32)})
             for k in range(ntx_fn(h) - 1):
                 wit = [rng.randbytes(rng.randrange(0, 70)) for _ in range(rng.randrange(1, 3))] if segwit else None
                 txs.append({'ver': 2, 'ins': [{'txid': rng.randbytes(32), 'idx': k, 'sig': rng.randbytes(rng.randrange(0, 30)), 'seq': 0xffffffff, 'wit': wit}],
